@@ -44,6 +44,7 @@ def cases(tier):
                 top = str((1 << n) - 1)
                 tb = dict(base, values=[top] * m, sym_bits=False)
                 pair('statement differs (promise absent vs 2^n - 1)', dict(tb, promises=[None] * m), dict(tb, promises=[top] + [None] * (m - 1)), False)
+                pair('statement differs (promise 1 vs 1 + 2^(n-1))', dict(tb, promises=['1'] + [None] * (m - 1)), dict(tb, promises=[str(1 + (1 << (n - 1)))] + [None] * (m - 1)), False)
                 pair('statement differs (promise 2^n - 2 vs 2^n - 1)', dict(tb, promises=[str((1 << n) - 2)] + [None] * (m - 1)), dict(tb, promises=[top] + [None] * (m - 1)), False)
             # a witness object whose openings were written through the public field after construction is a witness like any other
             pair('identical runs, second witness updated in place', base, dict(base, witness_in_place=True), True)
